@@ -1,31 +1,39 @@
 (* C02 - bounded queue: a blocked push/pop is always woken (no lost wakeup, no deadlock).
-   Only statements; proofs are `exact <lemma of BQ/BQProofs.v>`.  Reach k progs s = "s is reachable from the initial state of
-   the queue of capacity 2^k with client programs `progs` under SOME schedule (list of thread ids, clock ticks included)":
-   every theorem is quantified over all schedules, all capacities, all thread counts and all client programs mixing push,
-   pop, try_push, try_pop, push_n, pop_n, try_push_n, try_pop_n and the timed exclusive pop with any template flags.
+   Only statements; proofs are `exact <lemma of BQ/*.v>`.  Reach k progs s = "s is reachable from the initial state of the queue of
+   capacity 2^k with client programs `progs` under SOME schedule (list of thread ids, clock ticks included)": every theorem
+   about reachable states is quantified over all schedules, all capacities, all thread counts and all client programs mixing
+   push, pop, try_push, try_pop, push_n, pop_n, try_push_n, try_pop_n and the timed exclusive pop with any template flags
+   (usage_ok = the documented pairing rules where stated).
 
-   What is proved (all schedules, all programs - not even usage_ok is needed for these):
-     c02_sleeper_not_forgotten   a thread asleep in futex_wait on a slot always has the waiter bit of that slot set or a
-                                 wake_all for that slot pending (the 3-step window waiter-CAS / waker-store / waker-load
-                                 never leaves a sleeper behind a cleared bit)
-     c02_single_waker_wakes      the exchange waker that finds the bit set issues wake_all
-     c02_batch_waker_*           the batch waker (16-bit stores; seq_cst fence; load; CAS; wake_all) that finds the bit set
-                                 on its own version CASes it away, and a successful CAS issues wake_all
-     c02_wake_releases_all       wake_all releases every sleeper of the slot
-     c02_unparked_threads_enabled / c02_timed_wait_released_by_clock / c02_clock_can_advance
-                                 nothing but futex_wait can block a thread; a timed sleeper is released by the clock
-     c02_wake_tests_match_waiter_bit  the three `<= UINT16_MAX` tests and the `+ UINT16_MAX + 1` of the source are exactly
-                                 "waiter bit clear" / "set waiter bit" for every 16-bit version (regenerated expressions)
-     c02_memory_order_obligations  release exchange, acquire/release/seq_cst fences of the batch paths are in the source
-   PARTIAL (stated below as c02_no_lost_wakeup_statement / c02_no_deadlock_statement, not proved): the combined form
-   "a sleeper whose slot already shows the version it waits for has a waker on its way" needs, beyond the lemmas above,
-   usage_ok (the publisher of that version is a USE_FUTEX_WAKE op) - its pieces are the theorems above; global
-   deadlock-freedom of balanced programs and the step to termination under a fair scheduler are not mechanised.  Both
-   statements are checked at every run by exhaustive exploration of the extracted model on the small programs (model
-   deadlocks must be exactly the ones the program structure explains) and by the deadlock detector on the implementation. *)
+   PROVED (all "Closed under the global context"):
+     c02_no_lost_wakeup          (usage_ok, versions below 2^16) a thread asleep in futex_wait on a slot whose version already
+                                 equals the one it waits for has a waker on its way: a pending wake_all on that slot, or the
+                                 USE_FUTEX_WAKE batch publisher of that version before / inside its wakeup_waiters pass - for the
+                                 single exchange waker AND the batch store16 / seq_cst fence / load / CAS / wake_all waker,
+                                 including the window "waiter registers between the waker's store and the waker's check"
+     c02_ready_sleeper_waker_enabled, c02_deadlock_not_lost_wakeup
+                                 that waker is itself enabled; in a state where no thread can move every sleeper's slot has
+                                 really not reached its version: a deadlock can only be a resource deadlock of the client
+                                 program (e.g. more pops than pushes), never a lost wakeup
+     c02_sleeper_not_forgotten   (any program) a sleeper always has the waiter bit of its slot set or a wake_all pending
+     c02_single_waker_wakes, c02_batch_waker_load_sees_waiter, c02_batch_waker_cas_wakes, c02_wake_releases_all
+                                 the individual steps of both wakers
+     c02_unparked_threads_enabled, c02_timed_wait_released_by_clock, c02_clock_can_advance, c02_finished_threads_idle
+                                 nothing but futex_wait blocks a thread; a timed sleeper is released by the clock
+     c02_wake_tests_match_waiter_bit, c02_timeout_refresh, c02_memory_order_obligations
+                                 the regenerated `<= UINT16_MAX` tests, `+ UINT16_MAX + 1`, the timeout refresh and the orders
+   PARTIAL - NOT PROVED: c02_no_deadlock_statement (below): for balanced programs of blocking ops with one-sided threads some
+   thread is always enabled.  What is missing is only the client-level ticket accounting: (i) every issued unpublished ticket is
+   held by a thread, (ii) the ticket counters equal the elements of the calls that have obtained their tickets; with these the
+   minimal (round, side) awaited ticket is ready, so by c02_deadlock_not_lost_wakeup the state is not a deadlock.  The step from
+   "no reachable deadlock" to termination under a fair scheduler is the standard argument and is not mechanised.  The statement is
+   checked at every run by exhaustive exploration of the extracted model on the small programs (model deadlocks must be exactly
+   the ones the program structure explains) and by the deadlock detector of the scheduler on the implementation.
+   The 16-bit wrap: c02_no_lost_wakeup assumes versions below 2^16 (fewer than 2^15 rounds); beyond that the model (unbounded
+   versions compared through 16-bit words, as the code does) admits the ABA "waiter pre-empted for exactly 2^15 rounds". *)
 From Coq Require Import ZArith List Bool.
 Require Import Verif.Gen.Gen_bounded_queue Verif.Conc.Machine Verif.BQ.BQModel Verif.BQ.BQProofs.
-Require Import Verif.BQ.BQInvDefs Verif.BQ.BQInvStep Verif.BQ.BQInvMain Verif.BQ.BQInvThm Verif.BQ.BQWake.
+Require Import Verif.BQ.BQInvDefs Verif.BQ.BQInvStep Verif.BQ.BQInvMain Verif.BQ.BQInvThm Verif.BQ.BQWake Verif.BQ.BQFifo Verif.BQ.BQTry.
 Import ListNotations.
 Local Open Scope Z_scope.
 
@@ -105,6 +113,27 @@ Theorem c02_no_lost_wakeup : forall k progs s, usage_ok k progs = true -> Reach 
   waker_on_its_way s sl x.
 Proof. exact bq_no_lost_wakeup. Qed.
 Print Assumptions c02_no_lost_wakeup.
+
+(* the waker of a ready sleeper is itself enabled: a state in which some sleeper's version has been reached is never a
+   deadlock; conversely in a deadlocked state (no thread enabled) every sleeper's slot really has not reached the version it
+   waits for - a deadlock of the model can only be a resource deadlock of the client program, never a lost wakeup *)
+Theorem c02_ready_sleeper_waker_enabled : forall k progs s, usage_ok k progs = true -> Reach k progs s -> small s ->
+  forall t th sl x, nth_error (threads s) t = Some th -> parkedOn s th sl x -> ver (get_slot s sl) = x ->
+  exists u thu, nth_error (threads s) u = Some thu /\ (cert thu sl \/ win s thu sl x) /\ step s u <> None.
+Proof. exact bq_ready_sleeper_waker_enabled. Qed.
+Print Assumptions c02_ready_sleeper_waker_enabled.
+
+Theorem c02_deadlock_not_lost_wakeup : forall k progs s, usage_ok k progs = true -> Reach k progs s -> small s ->
+  (forall u, (u < length (threads s))%nat -> step s u = None) ->
+  forall t th sl x, nth_error (threads s) t = Some th -> parkedOn s th sl x -> ver (get_slot s sl) <> x.
+Proof. exact bq_deadlock_not_lost_wakeup. Qed.
+Print Assumptions c02_deadlock_not_lost_wakeup.
+
+(* a thread whose program is exhausted is idle (so "unfinished" and "has a current call" coincide) *)
+Theorem c02_finished_threads_idle : forall k progs s u thu, usage_ok k progs = true -> Reach k progs s ->
+  nth_error (threads s) u = Some thu -> thread_done thu = true -> tpc thu = Idle.
+Proof. exact bq_finished_idle. Qed.
+Print Assumptions c02_finished_threads_idle.
 
 (* ---- full-strength statement that is NOT proved (see header): kept visible, checked by exploration + monitors ---- *)
 Definition balanced (progs : list (list op)) : Prop :=
